@@ -379,6 +379,7 @@ class Check:
 
     def __init__(self, pid, level="proof"):
         self.pid = pid
+        Check.current = self
         self.level = level
         self.tier = os.environ.get("VERIF_TIER", "quick")
         self.seed = int(os.environ.get("VERIF_SEED", "0"))
@@ -410,6 +411,8 @@ class Check:
 
     def disagree(self, op, what, case, trigger=None):
         self.disagreements.append(dict(op=op, what=what, case=case, trigger=trigger))
+
+    current = None
 
     def fail(self, op, what, case, trigger=None):
         """Property oracle failure on the implementation."""
@@ -519,6 +522,47 @@ class PmapTimeout(Exception):
     pass
 
 
+class PmapResourceError(Exception):
+    """A worker exceeded its memory limit while running the implementation on a generated case."""
+
+    def __init__(self, failures):
+        super().__init__(f"{len(failures)} case(s) exceeded the per-worker memory limit: {failures[:2]}")
+        self.failures = failures
+
+
+class _PmapFailure:
+    def __init__(self, kind, item):
+        self.kind, self.item = kind, item
+
+
+def _limit_worker_memory():
+    """Per-worker address-space limit (VERIF_WORKER_MEM_GB, default 8): an implementation that starts allocating tens of
+    gigabytes on a small generated case (e.g. a garbage partition count from a broken native routine) gets a MemoryError
+    instead of taking the machine down."""
+    try:
+        import resource
+
+        gb = float(os.environ.get("VERIF_WORKER_MEM_GB", "8"))
+        if gb > 0:
+            resource.setrlimit(resource.RLIMIT_AS, (int(gb * 2 ** 30), int(gb * 2 ** 30)))
+    except Exception:
+        pass
+
+
+class _Guarded:
+    def __init__(self, fn):
+        self.fn = fn
+
+    def __call__(self, x):
+        try:
+            return self.fn(x)
+        except MemoryError:
+            import gc
+
+            gc.collect()
+            return _PmapFailure("memory", repr(x)[:200])
+
+
 def pmap(fn, items, nproc=None, timeout=None):
     """Fork-based parallel map (the implementation is called in-process inside each worker).
 
@@ -534,15 +578,18 @@ def pmap(fn, items, nproc=None, timeout=None):
     if nproc <= 1 or len(items) < 4:
         return [fn(x) for x in items]
     ctx = mp.get_context("fork")
-    pool = ctx.Pool(nproc)
+    pool = ctx.Pool(nproc, initializer=_limit_worker_memory)
     try:
-        res = pool.map_async(fn, items, chunksize=max(1, len(items) // (nproc * 4)))
+        res = pool.map_async(_Guarded(fn), items, chunksize=max(1, len(items) // (nproc * 4)))
         try:
             out = res.get(timeout)
         except mp.TimeoutError:
             pool.terminate()
             raise PmapTimeout(f"parallel map of {len(items)} cases did not finish within {timeout:.0f} s")
         pool.close()
+        bad = [o for o in out if isinstance(o, _PmapFailure)]
+        if bad:
+            raise PmapResourceError([b.item for b in bad])
         return out
     finally:
         pool.terminate()
@@ -600,6 +647,17 @@ def main_wrapper(fn):
         rc = fn()
     except SystemExit:
         raise
+    except PmapResourceError as e:
+        # the implementation blew the memory limit on small generated cases: whatever the operation should have returned,
+        # it did not return it; reported as a failure of the property with the cases (seed, index) as the replay
+        ck = Check.current
+        if ck is None:
+            traceback.print_exc()
+            sys.exit(2)
+        for it in e.failures[:5]:
+            ck.fail("resource", f"the implementation exceeded the per-worker memory limit ({os.environ.get('VERIF_WORKER_MEM_GB', '8')} GB) "
+                                f"on generated case {it} (cases are a few kB)", dict(case=it), "memory_blowup")
+        rc = ck.finish()
     except Exception:
         traceback.print_exc()
         sys.exit(2)
